@@ -324,7 +324,7 @@ def step (H : Hashes) (dirLen : Nat) (s : State) : Op → State × Resp
       match s.tree bd with
       | none => (s, .err .NoSuchBucket)
       | some t =>
-        -- dbc4627: the walk over the bucket directory: an entry that is not a directory is an object → `BucketNotEmpty`;
+        -- 24de822: the walk over the bucket directory: an entry that is not a directory is an object → `BucketNotEmpty`;
         -- directories (left behind by deleted objects, or "directory objects") do not count; then `remove_dir_all`
         if t.files ≠ [] then (s, .err .BucketNotEmpty)
         else ({ s with buckets := alErase bd s.buckets }, .ok)
@@ -375,7 +375,7 @@ def step (H : Hashes) (dirLen : Nat) (s : State) : Op → State × Resp
     | .ok (bd, p) =>
       match s.node bd p with
       | none =>
-        -- 391a940: `File::open` fails: `not_found_error(bucket)` tells a missing bucket from a missing key
+        -- cc244fc: `File::open` fails: `not_found_error(bucket)` tells a missing bucket from a missing key
         if alHas bd s.buckets then (s, .err .NoSuchKey) else (s, .err .NoSuchBucket)
       | some .dir =>
         -- `File::open` succeeds on a directory; without a range the first read (`get_md5_sum`) fails
@@ -413,7 +413,7 @@ def step (H : Hashes) (dirLen : Nat) (s : State) : Op → State × Resp
         | none => (s, .err .InvalidBucketName)
         | some bd2 => if alHas bd2 s.buckets then (s, .err .NoSuchKey) else (s, .err .NoSuchBucket)
       | some n =>
-        -- 3751248: after `load_metadata`, a regular file gets the ETag `get_object` returns (`get_md5_sum`); a directory none
+        -- 42c2f29: after `load_metadata`, a regular file gets the ETag `get_object` returns (`get_md5_sum`); a directory none
         let (len, etag) : Nat × Option Bytes := match n with
           | .file c => (c.length, some (etagOf H c))
           | .dir => (dirLen, none)
@@ -424,7 +424,7 @@ def step (H : Hashes) (dirLen : Nat) (s : State) : Op → State × Resp
     match objPath b k with
     | .error e => (s, .err e)
     | .ok (bd, p) =>
-      -- fe75a0e: `!path.exists()`: a missing bucket (`get_bucket_path(bucket)?.exists()`; it cannot fail where
+      -- 20fee59: `!path.exists()`: a missing bucket (`get_bucket_path(bucket)?.exists()`; it cannot fail where
       -- `get_object_path` succeeded) is `NoSuchBucket`, a missing key in an existing bucket is a success
       match s.tree bd with
       | none => (s, .err .NoSuchBucket)
@@ -445,7 +445,7 @@ def step (H : Hashes) (dirLen : Nat) (s : State) : Op → State × Resp
     | .error e => (s, .err e)
     | .ok rs =>
       let existing := rs.filter fun r => (s.node r.1.1 r.1.2).isSome
-      -- 902249e: after the keys are resolved the bucket must exist: `get_bucket_path(bucket)?.exists()`
+      -- 0f31b61: after the keys are resolved the bucket must exist: `get_bucket_path(bucket)?.exists()`
       match bucketDir b with
       | none => (s, .err .InvalidBucketName)                       -- only reachable with no keys
       | some bd =>
@@ -463,7 +463,7 @@ def step (H : Hashes) (dirLen : Nat) (s : State) : Op → State × Resp
       | .ok (dbd, dp) =>
         match s.node sbd sp with
         | none =>
-          -- 391a940: `!src_path.exists()`: `not_found_error(source bucket)`
+          -- cc244fc: `!src_path.exists()`: `not_found_error(source bucket)`
           if alHas sbd s.buckets then (s, .err .NoSuchKey) else (s, .err .NoSuchBucket)
         | some sn =>
           match s.tree dbd with
@@ -547,7 +547,7 @@ def step (H : Hashes) (dirLen : Nat) (s : State) : Op → State × Resp
         | .ok (sbd, sp) =>
           match s.node sbd sp with
           | none =>
-            -- 391a940: `File::open` fails: `not_found_error(source bucket)`
+            -- cc244fc: `File::open` fails: `not_found_error(source bucket)`
             if alHas sbd s.buckets then (s, .err .NoSuchKey) else (s, .err .NoSuchBucket)
           | some .dir => (s, .unmodelled)
           | some (.file c) =>
